@@ -159,6 +159,22 @@ func (u *Upgrader) Upgrade(w http.ResponseWriter, r *http.Request, responseHeade
 	}
 
 	subprotocol := u.selectSubprotocol(r, responseHeader)
+	for i := 0; i < len(subprotocol); i++ {
+		if subprotocol[i] <= 31 {
+			// The subprotocol can come from the application supplied
+			// response header. Replace control characters as is done for
+			// all other application supplied header values below, so that
+			// the value cannot inject header lines into the response.
+			b := []byte(subprotocol)
+			for j := range b {
+				if b[j] <= 31 {
+					b[j] = ' '
+				}
+			}
+			subprotocol = string(b)
+			break
+		}
+	}
 
 	// Negotiate PMCE
 	var compress bool
